@@ -1,0 +1,25 @@
+//go:build verif
+
+package unpackinfo
+
+// Contracts for the govc verifier (see /verif/DESIGN.md). This file contains
+// comments only; it is compiled only with the "verif" build tag.
+
+//@ func NewUnpackInfo -> (info, err)
+//@   sweep
+//@   replay unpackEntry: dst=dst, name=header.Name, typeflag=header.Typeflag
+//@   guide g1: isPlainAbs(dst) && len(dst) <= 4 && isSeg(header.Name[3:]) && hasPrefix(header.Name, "../") && len(header.Name) <= 8 && header.Typeflag == 48
+//@   guide g2: isPlainAbs(dst) && len(dst) <= 4 && isPlainRel(header.Name) && len(header.Name) <= 8 && header.Typeflag == 48
+//@   ghost $nlstat Int = 0
+//@   ghost $sawSymlink Bool = false
+//@   ghost $lastLstatErr Iface = nil
+//@   requires C19.header: header != nil
+//@   requires C19.name: header.Name != ""
+//@   ensures C01.lexical: err == nil ==> segUnder(Clean(info.Path), Clean(dst))
+//@   ensures C01.path: err == nil ==> info.Path == Join(dst, ite(header.Name[0] == '/', header.Name[1:], header.Name))
+//@   ensures C01.walk.nosymlink: err == nil ==> !$sawSymlink
+//@   ensures C01.walk.complete: err == nil ==> $nlstat == splitCount(header.Name, "/") - 1 || isNotExist($lastLstatErr)
+//@   invariant loop1 C01.walk.inv: $nlstat == i && !$sawSymlink && i >= 0 && i <= len(components)-1 && len(components) == splitCount(header.Name, "/")
+//@   ensures C01,C15.typegate: err == nil ==> header.Typeflag == tar.TypeDir || header.Typeflag == tar.TypeSymlink
+//@       || header.Typeflag == tar.TypeReg || header.Typeflag == tar.TypeRegA || header.Typeflag == tar.TypeXHeader || header.Typeflag == tar.TypeXGlobalHeader
+//@   ensures C15.fields: err == nil ==> info.Typeflag == header.Typeflag && info.OriginalModTime == header.ModTime && info.OriginalAccessTime == header.AccessTime
